@@ -417,27 +417,34 @@ end
 /-- labels that are event names (the label of a tau leaf is "") -/
 def NE (l : List String) : List String := l.filter (· != "")
 
+/-- some observed set shows none of the labels `L`: a node over `L` may be asked for the empty set -/
+def missAny (F : List (List String)) (L : List String) : Bool := F.any fun s0 => (interS s0 L).isEmpty
+
 /-- at a parallel node with optional branches: no mandatory child can produce the empty set, mandatory children share
-no label with the optional branches, and (below the top: `strict`) there is a mandatory child -/
-def wfAnd (strict : Bool) (cs : List PTree) : Bool :=
+no label with the optional branches, and — if the node may be asked for the empty set (`strict`, and some observed set
+shows none of its events) — there is a mandatory child (otherwise the rewritten node `O(r…)` would have to produce the
+empty set, and cannot) -/
+def wfAnd (strict : Bool) (F : List (List String)) (cs : List PTree) : Bool :=
   (classify cs).1.isEmpty ||
     ((classify cs).2.all (fun c => !canEmpty c) &&
      disjointS (PTree.labelsL (classify cs).2) (PTree.labelsL ((classify cs).1.flatMap grandchildrenOf)) &&
-     (!strict || !(classify cs).2.isEmpty))
+     (!strict || !(classify cs).2.isEmpty || !missAny F (PTree.labelsL cs)))
 
 mutual
-/-- `strict`: the node's parent may need the empty set from it.  True below a parallel or an OR node; a choice hands
-its own set to one child, so below a choice the flag is the choice's own -/
-def wfT (strict : Bool) : PTree → Bool
+/-- `strict`: the node's parent may ask it for the empty set.  False at the top; below a parallel or an OR node a child
+is asked whenever an observed set shows none of its events (the test is made at the node itself); a choice hands its own
+set to one child, so below a choice the flag is the choice's own, and — for a choice without a silent alternative —
+only if some observed set shows none of the choice's events -/
+def wfT (strict : Bool) (F : List (List String)) : PTree → Bool
   | .leaf _ => true
   | .tau => true
-  | .node .and cs => wfAnd strict cs && wfL true cs
-  | .node .xor cs => wfL strict cs
-  | .node .or cs => wfL true cs
-  | .node .other cs => wfL true cs
-def wfL (strict : Bool) : List PTree → Bool
+  | .node .and cs => wfAnd strict F cs && wfL true F cs
+  | .node .xor cs => wfL (strict && (cs.any PTree.isTau || missAny F (PTree.labelsL cs))) F cs
+  | .node .or cs => wfL true F cs
+  | .node .other cs => wfL true F cs
+def wfL (strict : Bool) (F : List (List String)) : List PTree → Bool
   | [] => true
-  | c :: cs => wfT strict c && wfL strict cs
+  | c :: cs => wfT strict F c && wfL strict F cs
 end
 
 end O2P.Gate
